@@ -273,6 +273,73 @@ def ob_recursion_cycles(ctx: Ctx) -> Outcome:
     return shape_verdict("frames+ast", problems, probe_deep_blocks, n, {"runner": "props.C20:probe_deep_blocks", "args": {}})
 
 
+def probe_parser_hangs() -> tuple[bool, str]:
+    """a quick hang probe: all sequences of up to 3 symbols over a 16-symbol alphabet of OCTAVE fragments, each read under
+    a 5 s alarm (the full sweep is C20.B1)"""
+    import itertools
+    import signal
+
+    from octave_mcp.core.parser import parse_with_warnings
+
+    alpha = ["K", "::", ":", "[", "]", ",", "\n", "  ", "\"s\"", "1", "→", "§", "//c", "===END===", "∧", "`", "B:\n  ", "§1::S\n  ", "[a,", "K::", "META:\n  ", "\n  ", "a b"]
+    bad = []
+
+    def on_alarm(signum, frame):
+        raise TimeoutError()
+
+    old = signal.signal(signal.SIGALRM, on_alarm)
+    try:
+        for n in (1, 2, 3):
+            for seq in itertools.product(alpha, repeat=n):
+                t = "===D===\n" + "".join(seq)
+                signal.alarm(5)
+                try:
+                    parse_with_warnings(t)
+                except TimeoutError:
+                    bad.append(f"parse_with_warnings({t!r}) did not return within 5 s")
+                    if len(bad) > 2:
+                        return True, "; ".join(bad)
+                except Exception:  # noqa: BLE001
+                    pass
+                finally:
+                    signal.alarm(0)
+    finally:
+        signal.signal(signal.SIGALRM, old)
+    return bool(bad), "; ".join(bad) or "all sequences of up to 3 of 23 fragments: every read returned within 5 s"
+
+
+def ob_parser_progress(ctx: Ctx) -> Outcome:
+    """C20.F7: the `while` loops of the parser that the path analysis of props/progress.py proved on the pinned tree
+    are proved (25 of 29 on the pinned tree): they exit at EOF and every path back to the loop head has
+    executed a direct advance() / expect() (or incremented the scan index); advance / expect / current are pinned. The
+    four loops that consume only through callees (document body, block children, section children, list items) are
+    listed as not proved - bounded tier."""
+    from props import progress as PG
+    from verif.common import shape_verdict
+
+    try:
+        recs = PG.analyse()
+        pinned = PG.helpers_pinned()
+    except Exception as e:  # noqa: BLE001
+        return Outcome.undecided("ast-paths", f"{type(e).__name__}: {e}")
+    problems = list(pinned)
+    structural_seen: dict[str, int] = {}
+    for r in recs:
+        if r["proved"]:
+            continue
+        if r["function"] in PG.STRUCTURAL and r["proved_modulo_callees"] and structural_seen.get(r["function"], 0) == 0:
+            structural_seen[r["function"]] = 1  # the one main loop of a structural reader: proved modulo its callees
+            continue
+        why = "does not exit at EOF" if not r["eof_exit"] else f"{r.get('back_paths_without_consumption')} path(s) back to the loop head without advance()/expect()" + (" (even counting the value / item / section readers as consuming)" if r["function"] in PG.STRUCTURAL else "")
+        problems.append(f"{r['function']} L{r['line']}: `while {r['test'][:70]}` is not proved to make progress: {why}")
+    if len(recs) < 20:
+        problems.append(f"only {len(recs)} while loops found in Parser (29 on the pinned tree)")
+    extra = dict(loops=len(recs), proved=sum(1 for r in recs if r["proved"]), proved_modulo_callees=[f"{r['function']} `while {r['test'][:50]}`" for r in recs if not r["proved"] and r["proved_modulo_callees"]], assumed_consuming_callees=list(PG.ASSUMED_CONSUMERS), variants=sorted({r["variant"] for r in recs if r.get("variant")}))
+    if problems:
+        return shape_verdict("ast-paths", problems, probe_parser_hangs, len(recs), {"runner": "props.C20:probe_parser_hangs", "args": {}})
+    return Outcome.ok("ast-paths", count=len(recs), **extra)
+
+
 READER_STAGES = ("parse", "parse_with_warnings", "tokenize", "parse_meta_only")
 STAGES = ("parse", "parse_with_warnings", "tokenize", "emit", "repair", "project", "compile_gbnf_from_meta", "extract_schema_from_document", "seal_document", "verify_seal", "resolve_hermetic_standard")
 
@@ -418,6 +485,7 @@ def obligations(ctx: Ctx):
         Ob(f"{P}.F2", "F", "tools: every reading / emitting / compiling stage call lies inside a covering try", ["octave_mcp.mcp.validate:ValidateTool.execute", "octave_mcp.mcp.write:WriteTool.execute", "octave_mcp.mcp.eject:EjectTool.execute", "octave_mcp.mcp.compile_grammar:CompileGrammarTool.execute"], ob_guarded_stages),
         Ob(f"{P}.F3", "F", "bracket recursion is cut by _check_deep_nesting at MAX_NESTING_DEPTH", [f"{PARSER}:Parser.parse_list"], ob_recursion_cut),
         Ob(f"{P}.F5", "F", "exception escape: only LexerError / ParserError can leave the readers (explicit raises + library-call table, propagated through the call graph, minus enclosing handlers)", FUNCS, ob_exception_escape),
+        Ob(f"{P}.F7", "F", "parser progress: every while loop exits at EOF and consumes a token (or advances its scan index) on every path back to the loop head - 25 of 29 outright, the 4 structural main loops counting their value / item / section readers as consuming", [f"{PARSER}:Parser.*"], ob_parser_progress),
         Ob(f"{P}.F6", "F", "recursive cycles other than the capped bracket descent are entered only below a RecursionError handler", FUNCS, ob_recursion_cycles),
         Ob(f"{P}.F4", "F", "parser receipts (copied verbatim into tool envelopes) hold only JSON-safe values", [f"{PARSER}:Parser.*"], ob_receipt_values),
     ]
